@@ -31,7 +31,7 @@ def critComplete (id : Nat) (f : Option Meas) (i : Bool) (r : String) : Crit :=
   { checks := true, body := fun st => completeBody st id f i r }
 def critMeasure (id : Nat) (m : Meas) : Crit := { checks := true, body := fun st => addMeasurementBody st id m }
 def critStop (id : Nat) : Crit := { checks := true, body := fun st => stopBody st id }
-def critCreate (t : Trial) : Crit := { checks := true, body := fun st => createTrialBody st t }
+def critCreate (keepInf : Bool) (t : Trial) : Crit := { checks := true, body := fun st => createTrialBody keepInf st t }
 /-- DeleteTrial: since round g its `delete_trial` call sits inside the study lock like the others -/
 def critDelete (id : Nat) : Crit := { checks := true, body := fun st => deleteTrialBody st id }
 def critMetadata (cfg : Cfg) (us : List (Meta.Upd K String)) : Crit :=
@@ -61,7 +61,7 @@ theorem stateIndep_delete (id : Nat) : StateIndep (critDelete id) := by
   repeat' split
   all_goals rfl
 
-theorem stateIndep_create (t : Trial) : StateIndep (critCreate t) := by
+theorem stateIndep_create (keepInf : Bool) (t : Trial) : StateIndep (critCreate keepInf t) := by
   intro st s
   rfl
 
